@@ -9,6 +9,9 @@ import Dmn.Lemmas.CanvasText
 import Dmn.Lemmas.RenderAt
 import Dmn.Lemmas.CanvasFits
 import Dmn.Lemmas.CanvasSamples
+import Dmn.Lemmas.CanvasRegions
+import Dmn.Lemmas.CanvasSamples3
+import Dmn.Lemmas.CanvasSamples4
 
 /-!
 # C19 — a decision table drawn as text is recognised exactly as drawn
@@ -523,19 +526,26 @@ written-out expectation (Model/CanvasStages.lean: `stageMarks`, `stageRegions`, 
 on the canvas of the drawing the information item name, the crossings and the body rectangle are
 `expectedMarks` — is PROVED for every table and layout under `Fits` (`scan_marks_of_drawing`), and
 `recognize_text_roundtrip_regions_plane` is the round trip relative to `Fits` and the last two
-stages.  STILL ASSUMED (decidable, evaluated per generated table, not proved for all):
-(3) the thin / body / grid layers are computed and the regions of the thin layer are the
-information item box and one rectangle per cell (`expectedRegions`); (4) the cells built from
-the grid layer are `planeDrawn`.  Proved towards them, for ANY content: what the searches find
-(`search_finds_first_in_reading_order`, the four directed searches in Lemmas/CanvasSearch.lean) and
-that the walk around a closed box returns the box (`walk_returns_the_box`,
-`region_of_closed_box`, `grid_rectangle_of_closed_box`).  Also proved: where `render` puts every line
-and character (`render_lines_and_characters`), what the text layer of the canvas of a drawn sheet
-holds at every position (Lemmas/CanvasDrawnText.lean, CanvasTop.lean), which character stands at
-which vertex of a sheet with double lines (Lemmas/CanvasVertex.lean).  Missing for (3) and (4): the
-same analysis for the single-line junctions of the thin layer (one closed box per region of the
-sheet, found in reading order), for `make_grid` (the grid layer has a closed box per grid cell) and
-for the numbering of the regions (`idsRows` / `idsCols` / `idsOfSheet` = rank in reading order).
+stages.  Stage (3) — `prepare_regions`, `remove_information_item_region` and `make_grid` succeed
+and the regions `recognize_regions` finds in the thin layer are the information item box and then
+one rectangle per region of the sheet in reading order (`expectedRegions`) — is PROVED too, for
+every table and layout under `Fits` (`scan_regions_of_drawing`, from `scan_regions_of_sheet` for any
+sheet whose regions are rectangles and `sheet_regions_are_rectangles`), so
+`recognize_text_roundtrip_plane` is the round trip relative to `Fits` and the LAST stage only.
+STILL ASSUMED (decidable, evaluated per generated table, not proved for all): (4) the cells built
+from the grid layer are `planeDrawn` (`stagePlane`).  NOTE: `Fits` as defined (no box-drawing
+character in a text, legal information item box) is enough for stages 1-3 but NOT for stage 4: the
+text `text_from_rect` cuts out of a region is the text of the table only if that text fills the
+interior of its region exactly (as `autoLayout` makes it); in a wider layout `draw` completes it
+with blanks and the recognised text is the completed one (`sample_fits_not_enough`, example below:
+`fitsB` and `stageRegions` true, `stagePlane` false).  The full statement therefore needs `Fits`
+extended by "every text fills its region, every width and height is at least 1".
+Proved towards (4), for ANY content: `grid_rectangle_of_closed_box`, `text_from_rect_cuts_interior`.
+Missing for (4): `make_grid` (the grid layer has a closed box per grid cell), the loop of
+`Canvas::plane` (marks at the crossing columns / rows, `findRegion` = the region of the cell), and
+the numbering of the regions (`idsRows` / `idsCols` / `idsOfSheet` = rank in reading order; proved
+so far: `keysInOrder` = the keys of the origins of the regions in reading order,
+Lemmas/CanvasKeys.lean `keysInOrder_eq`).
 -/
 
 /-- **Text-level round trip, given that the scanner reads the drawing back.**  For every
@@ -605,10 +615,10 @@ written-out expectation in the pixel coordinates of the sheet:
 |-------|------|--------|
 | 1 content | text → canvas content = the drawing in the text layer | PROVED for every table, layout and text (`draw_yields_drawing_lines`, `canvas_content_of_draw`) |
 | 2 marks | name, crossings, body rectangle = `expectedMarks` | PROVED for every well-formed table and layout whose drawing is a legal one (`Fits`: no box-drawing character inside a text, the information item box ends over a single line): `scan_marks_of_drawing`, from `marks_of_double_grid_sheet` (any sheet with crossing double lines) |
-| 3 regions | thin / body / grid layers; regions = box + one rectangle per cell (`expectedRegions`) | assumed (`stageRegions`); the walk is proved to return every closed box (`region_of_closed_box`) |
-| 4 plane | cells from the grid layer and the regions = `planeDrawn` | assumed (`stagePlane`); `grid_rectangle_of_closed_box` |
+| 3 regions | thin / body / grid layers; regions = box + one rectangle per cell (`expectedRegions`) | PROVED for every well-formed table and layout under `Fits`, merged input entries included: `scan_regions_of_drawing`, from `scan_regions_of_sheet` (any sheet whose regions are rectangles) and `sheet_regions_are_rectangles` |
+| 4 plane | cells from the grid layer and the regions = `planeDrawn` | assumed (`stagePlane`); `grid_rectangle_of_closed_box`; needs more than `Fits` (texts must fill their regions) |
 
-`recognize_text_roundtrip_stages` is the text-level round trip relative to stages 2–4 only.
+`recognize_text_roundtrip_plane` is the text-level round trip relative to `Fits` and stage 4 only.
 -/
 
 /-- **`draw` yields drawings** — for EVERY decoration, layout and well-formed table, whatever the
@@ -855,6 +865,110 @@ example :
       ⟨some " nm".toList, ⟨10, 4⟩, some ⟨16, 4⟩, none, ⟨0, 2, 21, 7⟩⟩ ∧
     (expectedRegions l.1 l.2.2 l.2.1).length = 9 :=
   ⟨by rw [sample_expectations.1]; rfl, sample_expectations.2.1, by rw [sample_expectations.2.2]; rfl⟩
+
+/-- **The regions of the sheet of every table are rectangles** — both orientations, with or
+without allowed values, label lane, split header lane, annotations, merged input entries (a run of
+equal entries of ANY length is one cell): for every grid cell the cells with its key are exactly a
+rectangle of grid rows and columns (`IsRegion`). -/
+theorem sheet_regions_are_rectangles (d : Decor) (L : Layout) (t : TableSpec)
+    (ho : t.orientation ≠ .crossTable) : RectSheet (sheetOf d L t) :=
+  rectSheet_sheetOf d L t ho
+
+/-- **Stage 3 on any sheet.**  For EVERY sheet (any keys, texts, widths, heights) with crossing
+double lines (`DoubleGrid`) whose regions are rectangles (`RectSheet`), drawn legally (`SheetFits`),
+with or without an information item box: `prepare_regions`, `remove_information_item_region` and
+`make_grid` succeed on the canvas of the drawing and keep its shape and text layer, and
+`recognize_regions` finds in the thin layer — in this order — the information item box (when there
+is a name) and one rectangle per region of the sheet, in reading order of their top left corners
+(`keysInOrder`), each with the pixel coordinates of its border (`regionRect`).  Inside: the thin
+layer is the single-line junction of the arms of every vertex (Lemmas/CanvasThin.lean), every
+rectangular region is a closed box of it (`regionBox_of_isRegion`), the top left corners in reading
+order are the box corner and the origins of the regions (`corners_of_sheet`), and the keys in order
+of first appearance are the keys of these origins (`keysInOrder_eq`). -/
+theorem scan_regions_of_sheet {s : Sheet} {name : Option Text} {boxRight : Nat} {bc0 br0 : Nat}
+    {bc1 br1 : Option Nat} (hf : SheetFits s name boxRight) (g : DoubleGrid s bc0 br0 bc1 br1)
+    (hrect : RectSheet s) :
+    ∃ c', scanLayers (sheetCanvas s name boxRight)
+        ⟨0, boxLines name, s.xPos s.ncols + 1, boxLines name + s.yPos s.nrows + 1⟩ = .ok c' ∧
+      Shape c' (boxLines name + s.yPos s.nrows + 2) (s.xPos s.ncols + 1) ∧
+      (∀ y x, y < boxLines name + s.yPos s.nrows + 2 → x < s.xPos s.ncols + 1 →
+        chOf c' .text y x = chOf (sheetCanvas s name boxRight) .text y x) ∧
+      recognizeRegions c' = .ok (sheetRegions s name boxRight) :=
+  regions_of_sheet hf g hrect
+
+/-- **Stage 3 for every table.**  For every well-formed table — any number of inputs, outputs,
+annotations and rules, both orientations, every combination of optional parts, input entries merged
+over any number of adjacent rules or not — and every layout whose drawing is a legal one (`Fits`):
+on the canvas of the drawing the layers are computed and the regions the scanner finds in the thin
+layer are exactly `expectedRegions`: the information item box, then one rectangle per cell of the
+sheet in reading order. -/
+theorem scan_regions_of_drawing (d : Decor) (L : Layout) (t : TableSpec) (hwf : t.wf = true)
+    (hf : Fits d L t) :
+    ∃ c', scanLayers (canvasOf (draw d L t)) (expectedMarks d L t).bodyRect = .ok c' ∧
+      recognizeRegions c' = .ok (expectedRegions d L t) := by
+  have hw := (TableSpec.wf_iff t).mp hwf
+  exact regions_of_draw d L t hw.orient hw.inputs_pos hw.outputs_pos hw.rules_pos hf
+
+/-- non-vacuity, and the class of the seeded change C19-19: an input entry merged over THREE
+adjacent rules, in both orientations, is a well-formed table with a legal drawing (so the theorem
+applies: the merged cell is one region, 18 regions instead of 20), and stage 4 evaluates to true
+for it (Lemmas/CanvasSamples3.lean, CanvasSamples4.lean) -/
+example :
+    (let l := laidOut mergedDecor (mergedTable .ruleAsRow)
+     l.2.1.wf = true ∧ fitsB l.1 l.2.2 l.2.1 = true ∧ (expectedRegions l.1 l.2.2 l.2.1).length = 18 ∧
+       stageRegions l.1 l.2.2 l.2.1 = true ∧ stagePlane l.1 l.2.2 l.2.1 = true) ∧
+    (let l := laidOut mergedDecor (mergedTable .ruleAsColumn)
+     l.2.1.wf = true ∧ fitsB l.1 l.2.2 l.2.1 = true ∧ (expectedRegions l.1 l.2.2 l.2.1).length = 18 ∧
+       stageRegions l.1 l.2.2 l.2.1 = true ∧ stagePlane l.1 l.2.2 l.2.1 = true) :=
+  ⟨sample_merged_three_rows, sample_merged_three_cols⟩
+
+/-- **The region of a grid cell is the first region of the whole list that contains it**
+(`Canvas::plane`, canvas.rs:339-351; the search the seeded change C19-19 started at a remembered
+index): for ANY list of regions and rectangle, if region number `i` contains the rectangle and no
+region before it does, the search returns `i` and that region — the number does not depend on
+where the search for the previous cell ended; if no region contains it, nothing is found
+(`region not found`). -/
+theorem find_region_is_first_containing (rect : Rect) (rs : List Rect) :
+    (∀ i r, rs[i]? = some r → r.contains rect = true →
+      (∀ j r', j < i → rs[j]? = some r' → r'.contains rect = false) →
+      findRegion rect rs 0 = some (i, r)) ∧
+    ((∀ r ∈ rs, r.contains rect = false) → findRegion rect rs 0 = none) := by
+  refine ⟨fun i r h hc hno => ?_, findRegion_none rect rs 0⟩
+  have := findRegion_first rect rs 0 i r h hc hno
+  rwa [Nat.zero_add] at this
+
+/-- non-vacuity: a cell in the third row of a region that spans three rows is found in that
+region (number 1), although the first cell of the row lies in region 2 -/
+example : findRegion ⟨4, 6, 19, 9⟩ [⟨0, 0, 5, 3⟩, ⟨4, 2, 19, 9⟩, ⟨0, 6, 5, 9⟩] 0 =
+    some (1, ⟨4, 2, 19, 9⟩) := by decide
+
+/-- **Text-level round trip relative to the one stage not yet proved.**  For every well-formed
+table and every layout whose drawing is a legal one (`Fits`): if the cells `Canvas::plane` builds
+from the grid layer and the (proved) regions are the plane the drawing denotes (`stagePlane`,
+decidable, evaluated by the driver for every generated table), then recognising the TEXT of the
+drawing returns exactly the table.  Text → canvas content, the marks and the regions are proved. -/
+theorem recognize_text_roundtrip_plane (d : Decor) (L : Layout) (t : TableSpec)
+    (hwf : t.wf = true) (hd : d.Ok t) (hf : Fits d L t) (hp : stagePlane d L t = true) :
+    recognizeText (drawText d L t) = .ok t := by
+  have hw := (TableSpec.wf_iff t).mp hwf
+  exact recognize_text_roundtrip_regions_plane d L t hwf hd hf
+    (stageRegions_of_fits d L t hw.orient hw.inputs_pos hw.outputs_pos hw.rules_pos hf) hp
+
+/-- non-vacuity: the hypotheses hold for the drawing of the small table -/
+example :
+    let l := laidOut tinyDecor (tinyNamed .ruleAsColumn)
+    l.2.1.wf = true ∧ fitsB l.1 l.2.2 l.2.1 = true ∧ stagePlane l.1 l.2.2 l.2.1 = true :=
+  ⟨sample_fits.2.2, sample_fits.2.1, sample_stages_cols.2.2⟩
+
+/-- the remaining hypothesis is needed, `Fits` alone is not enough: in a layout one position wider
+than the texts the drawing is legal and its regions are found, but the text cut out of a region is
+the text of the table completed with blanks — the table with the completed texts is what the
+drawing denotes (`sample_fits_not_enough`, Lemmas/CanvasSamples2.lean) -/
+example :
+    let l := laidOut tinyDecor (tinyNamed .ruleAsRow)
+    let L' : Layout := { l.2.2 with colW := l.2.2.colW.map (· + 1) }
+    l.2.1.wf = true ∧ fitsB l.1 L' l.2.1 = true ∧ stageRegions l.1 L' l.2.1 = true ∧
+      stagePlane l.1 L' l.2.1 = false := sample_fits_not_enough
 
 /-- the scanner rejects what is not a drawing with an error (and `canvas_no_panic`: never with
 a panic): no corner, no double crossing, an open rectangle -/
